@@ -1,4 +1,8 @@
-from .manifest import reg, NOT_BUILT
+# pid -> level category, technique, text, note, design ref
+CHECKS = {}
+NOT_BUILT = {}
+def reg(pid, category, technique, text, note, ref):
+    CHECKS[pid] = dict(category=category, technique=technique, text=text, note=note, ref=ref)
 
 EVAL_NOTE = ("Trusted: TLC, spec/Datalog.tla as the meaning of the generated fragment, the python renderer "
              "(JSON AST -> .dl / facts / parsed CSV). Programs come from a seeded generator (not all programs); "
